@@ -338,4 +338,60 @@ theorem decimal_rem_type (maxP p1 s1 p2 s2 : Int) (hP : 1 ≤ maxP ∧ maxP ≤ 
 
 example : decAddTypeM 38 38 10 20 2 = (38, 10) := by decide
 
+/-! ## source shapes (T-tie) -/
+
+/-- **The critical expressions the model transcribes are still present in `/repo` as written**
+(regenerated by `tools/translate.py` on every run): the Kleene bit formulas and which buffer
+each operand comes from, the zero-divisor guards and their order, the `try_op!` scalar arms, the
+valid-index loop of `try_binary`, the null-mask union of `binary`, the i256 carry / overflow /
+sign-test expressions and the `mulx` statements, the accumulators' validity masks and the decimal
+precision/scale expressions.  An edit to any of them makes the item `LOST` and this theorem false. -/
+theorem source_shapes :
+    (SHAPE_AND_KLEENE_BOTH_lost ||
+     SHAPE_OR_KLEENE_BOTH_lost ||
+     SHAPE_AND_KLEENE_ONE_L_lost ||
+     SHAPE_AND_KLEENE_ONE_R_lost ||
+     SHAPE_OR_KLEENE_ONE_L_lost ||
+     SHAPE_OR_KLEENE_ONE_R_lost ||
+     SHAPE_KLEENE_QUAT_ORDER_AND_lost ||
+     SHAPE_KLEENE_QUAT_ORDER_OR_lost ||
+     SHAPE_AND_KLEENE_VALUES_lost ||
+     SHAPE_OR_KLEENE_VALUES_lost ||
+     SHAPE_BOOL_BINARY_NULLS_lost ||
+     SHAPE_DIV_CHECKED_GUARD_lost ||
+     SHAPE_MOD_CHECKED_GUARD_lost ||
+     SHAPE_ADD_CHECKED_lost ||
+     SHAPE_NEG_CHECKED_lost ||
+     SHAPE_INTEGER_OP_ADD_lost ||
+     SHAPE_INTEGER_OP_SUB_lost ||
+     SHAPE_INTEGER_OP_MUL_lost ||
+     SHAPE_INTEGER_OP_DIV_lost ||
+     SHAPE_INTEGER_OP_REM_lost ||
+     SHAPE_TRY_OP_SCALAR_R_lost ||
+     SHAPE_TRY_OP_SCALAR_L_lost ||
+     SHAPE_TRY_BINARY_VALID_IDX_lost ||
+     SHAPE_BINARY_NULL_UNION_lost ||
+     SHAPE_I256_WRAPPING_ADD_lost ||
+     SHAPE_I256_WRAPPING_SUB_lost ||
+     SHAPE_I256_ADD_OVERFLOW_lost ||
+     SHAPE_I256_SUB_OVERFLOW_lost ||
+     SHAPE_I256_NEG_lost ||
+     SHAPE_I256_CMP_lost ||
+     SHAPE_I256_MUL_BOTH_HIGH_lost ||
+     SHAPE_I256_MUL_SIGN_TEST_lost ||
+     SHAPE_I256_MUL_SIGNFIX_lost ||
+     SHAPE_I256_WRAPPING_MUL_lost ||
+     SHAPE_MULX_BODY_lost ||
+     SHAPE_MULX_BODY2_lost ||
+     SHAPE_MULX_BODY3_lost ||
+     SHAPE_SUM_CHECKED_FOLD_lost ||
+     SHAPE_SUM_ACC_NULLABLE_lost ||
+     SHAPE_MIN_ACC_NULLABLE_lost ||
+     SHAPE_MAX_ACC_NULLABLE_lost ||
+     SHAPE_AGG_CHUNK_VALIDITY_lost ||
+     SHAPE_DECIMAL_ADD_PRECISION_lost ||
+     SHAPE_DECIMAL_MUL_TYPE_lost ||
+     SHAPE_DECIMAL_DIV_TYPE_lost ||
+     SHAPE_DECIMAL_REM_PRECISION_lost) = false := by decide
+
 end ArrowModel.C12
